@@ -144,7 +144,8 @@ class EffectivePotential(ABC):
         T = np.resize(T, (numPoints))
 
         resValue = np.empty_like(T)
-        resLocation = np.empty_like(guesses)
+        # Always float: an integer-typed guess would truncate the located minimum
+        resLocation = np.empty_like(guesses, dtype=float)
 
         # Step of the finite-difference gradient, relative to max(|field|, field scale)
         stepRel = np.finfo(float).eps ** (1 / 3)
